@@ -213,6 +213,134 @@ def gen_doc(rng):
     return doc, prof.flags()
 
 
+# ----------------------------------------------------------------------------- model side
+
+class SingRecorder:
+    """wraps the real `English.singularize` so that the calls the generator makes (in its order) become the
+    model's table; also remembers every (word -> result) of the whole run: a word that ever gets two different
+    results shows that the function depends on history"""
+
+    def __init__(self):
+        from dataclass_wizard.wizard_cli import schema
+        self.schema = schema
+        self.orig = schema.English.__dict__['singularize']
+        self.real = schema.English.singularize
+        self.calls = []
+        self.ever = {}
+        self.conflicts = []
+
+    def install(self):
+        rec = self
+
+        def singularize(word):
+            r = rec.real(word)
+            rec.calls.append((word, r))
+            return r
+        self.schema.English.singularize = staticmethod(singularize)
+
+    def uninstall(self):
+        self.schema.English.singularize = self.orig
+
+    def take(self):
+        calls, self.calls = self.calls, []
+        for w, r in calls:
+            if w in self.ever and self.ever[w] != r:
+                self.conflicts.append((w, self.ever[w], r))
+            self.ever.setdefault(w, r)
+        return calls
+
+
+def doc_strings(v, out):
+    if isinstance(v, str):
+        out.add(v)
+    elif isinstance(v, dict):
+        for x in v.values():
+            doc_strings(x, out)
+    elif isinstance(v, list):
+        for x in v:
+            doc_strings(x, out)
+    return out
+
+
+def _ok(f, *a):
+    try:
+        f(*a)
+        return True
+    except (TypeError, ValueError):
+        return False
+
+
+def std_tables(doc, sing_calls):
+    """the stdlib answers the model needs, computed with the stdlib itself"""
+    S = sorted(doc_strings(doc, set()))
+    z = lambda s: s.replace('Z', '+00:00', 1)
+    sing = {}
+    for w, r in sing_calls:
+        sing.setdefault(w, r)
+    return {
+        'known': S,
+        'date': [s for s in S if _ok(dt.date.fromisoformat, s)],
+        'time': [s for s in S if _ok(dt.time.fromisoformat, z(s))],
+        'datetime': [s for s in S if _ok(dt.datetime.fromisoformat, z(s))],
+        'numeric': [s for s in S if s.isnumeric()],
+        'float': [s for s in S if _ok(float, s)],
+        'lower': [[s, s.lower()] for s in S],
+        'singularize': [[w, r] for w, r in sing.items()],
+    }
+
+
+def keys_model_domain(doc):
+    """the string model (DW/Model/Strings.lean) is ASCII-cased: keys with cased non-ASCII letters are outside it"""
+    for _p, o in walk_objects(doc):
+        for k in o:
+            for c in k:
+                if ord(c) > 127 and (c.lower() != c or c.upper() != c):
+                    return False
+    return True
+
+
+def impl_canon(src):
+    lines = scan_lines(src)
+    out = {'imports': lines['imports'], 'lines': lines['classes'], 'ast': None}
+    plain = all(_plain_ident(c[0]) and all(_plain_ident(f) for f, _a in c[2]) for c in lines['classes'])
+    if plain:
+        try:
+            a = scan_ast(src)
+        except SyntaxError:
+            a = None
+        if a is not None:
+            out['ast'] = [[c[0], c[1], c[2]] for c in a['classes']]
+            out['ast_imports'] = a['imports']
+            out['all_dataclass'] = all(c[3] for c in a['classes'])
+    return out
+
+
+def _plain_ident(s):
+    return s.isascii() and s.isidentifier() and not keyword.iskeyword(s)
+
+
+def model_canon(r, impl):
+    if 'ok' not in r:
+        return r
+    m = r['ok']
+    out = {'imports': m['imports'],
+           'lines': [[c['name'], c['root'], [[f[0], f[2]] for f in c['fields']]] for c in m['classes']],
+           'ast': None}
+    if impl.get('ast') is not None:
+        out['ast'] = [[c['name'], c['root'], [[f[0], f[1]] for f in c['fields']]] for c in m['classes']]
+        out['ast_imports'] = m['imports']
+        out['all_dataclass'] = True
+    return out
+
+
+def probe_dedup():
+    """is the `o in self` test of TypeContainer.append structural (the dataclass-generated __eq__)?  Witness:
+    the third element's class differs from the first only below the first level."""
+    doc = [{"x": {"p": {"q": 1}}}, {"x": 5}, {"x": {"p": {"r": 1}}}]
+    src = generate(json.dumps(doc), False, False)
+    return '    r: int' not in src
+
+
 # ----------------------------------------------------------------------------- running the real generator
 
 def generate(doc_text, experimental, force_strings):
@@ -598,7 +726,13 @@ def run(ctx: C.Ctx):
                 'combinations. Non-trivial = distinct (document, flags).')
     n = ctx.quick(500, 6000)
     tm = TempModules()
+    rec = SingRecorder()
+    rec.install()
+    reqs, pend = [], []
     try:
+        dedup = probe_dedup()
+        rec.take()
+        ctx.notes['probed_dedup_by_eq'] = dedup
         for i in range(n):
             if ctx.done(i):
                 break
@@ -606,9 +740,49 @@ def run(ctx: C.Ctx):
             if not ctx.begin_case(i):
                 continue
             doc_text = json.dumps(doc, ensure_ascii=False)
+            in_domain = keys_model_domain(doc)
             for exp, force in FLAGS:
                 case = {'doc': doc, 'experimental': exp, 'force_strings': force, 'profile': prof}
                 ctx.seen('gen', case)
-                oracle(ctx, tm, case, doc, doc_text, exp, force)
+                rec.take()
+                src = oracle(ctx, tm, case, doc, doc_text, exp, force)
+                calls = rec.take()
+                if src is None:
+                    continue
+                # the generator ran twice: the second half of the calls must repeat the first
+                half = len(calls) // 2
+                if calls[:half] != calls[half:]:
+                    ctx.fail('gen:singularize', case, 'English.singularize answered differently in the second generation of the '
+                             'same document', detail=dict(first=calls[:half][:20], second=calls[half:][:20]))
+                for w, r in calls[:half]:
+                    again = rec.real(w)
+                    if again != r:
+                        ctx.fail('gen:singularize', case, f'English.singularize({w!r}) gave {r!r} inside the generator and {again!r} when '
+                                 'called again: it is not a function of the word')
+                        break
+                if not in_domain:
+                    ctx.count('model_skipped_nonascii_cased_key')
+                    continue
+                if ctx.model_available:
+                    reqs.append({'op': 'c19', 'doc': M.enc_j(doc), 'experimental': exp, 'force_strings': force, 'dedup': dedup,
+                                 'std': std_tables(doc, calls[:half])})
+                    pend.append((case, impl_canon(src)))
+        if rec.conflicts:
+            w, a, b = rec.conflicts[0]
+            ctx.fail('gen:singularize', {'word': w}, f'English.singularize({w!r}) returned {a!r} earlier in this process and {b!r} later '
+                     f'({len(rec.conflicts)} such words): generation depends on earlier runs')
     finally:
+        rec.uninstall()
         tm.close()
+    if ctx.model_available and reqs:
+        outs = ctx.driver.run(reqs)
+        for (case, impl), o in zip(pend, outs):
+            if 'r' not in o:
+                ctx.agree('gen:model', case, impl, {'driver_error': o.get('err')})
+                continue
+            r = o['r']
+            if r.get('stdmiss'):
+                # the model asked the tables something the generator did not: its naming logic diverged
+                ctx.agree('gen:model', case, impl, {'stdmiss': True})
+                continue
+            ctx.agree('gen:model', case, impl, model_canon(r, impl))
